@@ -729,6 +729,8 @@ class Exec:
                     return v.discr
                 if isinstance(v.variant, int):
                     return mk_int(v.variant, "isize")
+                if v.variant in getattr(self, "enum_index", {}):
+                    return mk_int(self.enum_index[v.variant], "isize")
                 if v.variant in ("None", "Ok", "Continue"):
                     return mk_int(0, "isize")
                 if v.variant in ("Some", "Err", "Break"):
